@@ -98,10 +98,13 @@ for Crossbeam<'a, ItemType, BUFFER_SIZE, MAX_STREAMS> {
     fn send(&self, item: ItemType) -> keen_retry::RetryConsumerResult<(), ItemType, ()> {
         match self.tx.len() {
             len_before if len_before <= 2 => {
+                #[cfg(feature = "verif")] crate::verif::yield_point();
                 let ret = self.tx.try_send(item);
                 self.streams_manager.wake_stream(0);
                 ret
             },
+            #[cfg(feature = "verif")]
+            _ if { crate::verif::yield_point(); false } => unreachable!(),     // a scheduling point between `len()` and `try_send()` -- always falls through
             _ => self.tx.try_send(item),
         }
             .map_or_else(|item| match item {
@@ -118,6 +121,7 @@ for Crossbeam<'a, ItemType, BUFFER_SIZE, MAX_STREAMS> {
         if self.tx.is_full() {
             return keen_retry::RetryResult::Transient { input: setter, error: () }
         }
+        #[cfg(feature = "verif")] crate::verif::yield_point();
         // from this point on, this method never returns Some, meaning it may block
         // (crossbeam channels don't have an API that plays nice with setting the value from a closure)
 
@@ -140,6 +144,7 @@ for Crossbeam<'a, ItemType, BUFFER_SIZE, MAX_STREAMS> {
         if self.tx.is_full() {
             return keen_retry::RetryResult::Transient { input: setter, error: () }
         }
+        #[cfg(feature = "verif")] crate::verif::yield_point();
         let mut item = MaybeUninit::uninit();
         let item_ref = unsafe { &mut *item.as_mut_ptr() };
         setter(item_ref).await;
@@ -175,6 +180,7 @@ Crossbeam<'a, ItemType, BUFFER_SIZE, MAX_STREAMS> {
 
     #[inline(always)]
     fn consume(&self, stream_id: u32) -> Option<ItemType> {
+        #[cfg(feature = "verif")] crate::verif::yield_point();
         match self.rx.try_recv() {
             Ok(event) => {
                 Some(event)
